@@ -1,7 +1,7 @@
 (* C03 property theorems. Statements closed by `exact lemma`, followed by Print Assumptions; Examples show that the
    hypotheses are satisfiable. *)
 From Coq Require Import NArith ZArith List Bool Lia.
-From OG Require Import C03.Model C03.Proofs.
+From OG Require Import C03.Model C03.Proofs C03.ColModel C03.ColProofs.
 Import ListNotations.
 
 (* Main theorem, for the whole family of protocols "log first, log removal last, any interleaving of renaming the
@@ -144,3 +144,53 @@ Example crash_mid_rename_completes_new :
   map (visible (recover [0; 1; 2; 3]%N (run (firstn 4 (replace_steps (fun n => N.eqb n 1) [0; 1]%N [2; 3]%N)) ex_fs))) [0; 1; 2; 3; 7]%N
   = [None; None; Some 12; Some 13; Some 17]%N.
 Proof. vm_compute. reflexivity. Qed.
+
+(* ---------- what compaction writes, column by column (streaming compactor, code-shaped model ColModel.compact_col) ----------
+   For every max-rows > 0 and every non-empty list of well-formed input chunks of a series (any number of files, any
+   number of segments per chunk, the column present in some chunks and absent from others, any cells): the segments
+   written for the column hold exactly the cells of the input chunks in file order, one nil for every row of a chunk
+   that lacks the column - nothing lost, duplicated, reordered or shifted - and the written chunk is well-formed again
+   (full segments, then one of 1..max-rows rows), so the premise is an invariant of repeated compaction. *)
+Theorem C03_compact_column_exact : forall (A : Type) (nil : A) (maxRows : nat) (srcs : list (src A)),
+  0 < maxRows -> srcs <> [] -> Forall (wf_src maxRows) srcs ->
+  concat (compact_col nil maxRows srcs) = concat (map (expand nil) srcs) /\
+  wf_rows maxRows (map (@length A) (compact_col nil maxRows srcs)).
+Proof. exact (@compact_col_correct). Qed.
+Print Assumptions C03_compact_column_exact.
+
+(* every column of the series (a field of any type, the time column) is cut into segments at the same rows: addressing
+   a cell by (segment, offset) hits the same row in every column, so no value moves to another timestamp *)
+Theorem C03_compact_columns_aligned : forall (A B : Type) (nilA : A) (nilB : B) (maxRows : nat)
+    (sa : list (src A)) (sb : list (src B)),
+  0 < maxRows -> sa <> [] -> Forall (wf_src maxRows) sa -> Forall (wf_src maxRows) sb -> map s_rows sa = map s_rows sb ->
+  map (@length A) (compact_col nilA maxRows sa) = map (@length B) (compact_col nilB maxRows sb).
+Proof. exact (@columns_aligned). Qed.
+Print Assumptions C03_compact_columns_aligned.
+
+(* rows: pairing the written time column with the written field column gives the pairs of the inputs *)
+Theorem C03_compact_rows_preserved : forall (A : Type) (nil : A) (maxRows : nat) (st : list (src Z)) (sf : list (src A)),
+  0 < maxRows -> st <> [] -> Forall (wf_src maxRows) st -> Forall (wf_src maxRows) sf -> map s_rows st = map s_rows sf ->
+  combine (concat (compact_col 0%Z maxRows st)) (concat (compact_col nil maxRows sf)) =
+  combine (concat (map (expand 0%Z) st)) (concat (map (expand nil) sf)).
+Proof. exact (@rows_preserved). Qed.
+Print Assumptions C03_compact_rows_preserved.
+
+(* sensitivity (documented mutants, not findings): a padding counter that is never decremented over-counts the nils of a
+   chunk with two segments; and the well-formedness premise is necessary *)
+Theorem padding_counter_mutant_refuted :
+  exists (m : nat) (srcs : list (src (option Z))),
+    0 < m /\ Forall (wf_src m) srcs /\ concat (compact_col_nodec None m srcs) <> concat (map (expand None) srcs).
+Proof. exact nodec_refuted. Qed.
+Print Assumptions padding_counter_mutant_refuted.
+
+Theorem short_inner_segments_refuted_thm :
+  exists (m : nat) (srcs : list (src (option Z))),
+    0 < m /\ concat (compact_col None m srcs) <> concat (map (expand None) srcs).
+Proof. exact short_inner_segments_refuted. Qed.
+Print Assumptions short_inner_segments_refuted_thm.
+
+Example wf_src_satisfiable :
+  Forall (wf_src 2) [mksrc [2; 1] (None : option (list (list (option Z)))); mksrc [2; 2] (Some [[Some 1%Z; None]; [Some 2%Z; Some 3%Z]])] /\
+  compact_col None 2 [mksrc [2; 1] None; mksrc [2; 2] (Some [[Some 1%Z; None]; [Some 2%Z; Some 3%Z]])]
+  = [[None; None]; [None; Some 1%Z]; [None; Some 2%Z]; [Some 3%Z]].
+Proof. split; [repeat constructor; cbn; lia | vm_compute; reflexivity]. Qed.
